@@ -12,7 +12,8 @@ ORACLES = {
               "value returned by k's most recent add or remove; hence a key whose true count reaches the threshold is listed",
     "C17.no_exception": "no add/remove/clear raises",
 }
-RULE = ("Hypothesis draws HeavyHitters (num_hitters 1..4, adds only) or StreamThreshold (threshold 1..8, add and legitimate remove), "
+RULE = ("Hypothesis draws HeavyHitters (num_hitters 1..4, adds only) or StreamThreshold (threshold 1..8, add and legitimate remove; half of "
+        "them switched to the mean or mean-min query, under which returned estimates can fall without any removal), "
         "width 1..4, depth 1..3 (colliding), a hash strategy, a pool of 2-9 keys (larger than the table) and 3-50 ops incl. occasional "
         "clear(). Exhaustive slice: width 1, depth 1, 3 keys, every history of length <= L (L=5 quick, 6 thorough) over {add k 1, add k "
         "2, remove k} for StreamThreshold(threshold 2 and 3) and over {add k 1, add k 2} for HeavyHitters(1 and 2 hitters). Non-trivial "
@@ -26,7 +27,7 @@ MANIFEST = {
                   "width-1 histories up to length 5/6 enumerated.",
     "level_note": "Trusted: the 'most recent returned value' bookkeeping in vlib/drivers/cms.py.",
 }
-P = {"hh": "C17.hh", "st": "C17.st"}
+P = {"hh": "C17.hh", "st": "C17.st", "vary_query": True}
 
 
 def budget(tier):
